@@ -2,6 +2,7 @@
 From Coq Require Import ZArith NArith List Bool String.
 From DM Require Import Base.PyVal Spec.Nf Spec.Table Spec.Ops Proofs.TableFacts Proofs.OpFacts.
 From DM Require Import Model.LTable Gen.KCore Model.Core Proofs.CoreRefine.
+From DM Require Import Spec.SeriesEnc Proofs.SeriesEncFacts.
 Import ListNotations.
 Open Scope string_scope.
 
@@ -54,4 +55,15 @@ Proof. repeat split. Qed.
 Example C07_zero_then_grow :
   match get (run [ONew 3; OSetColKind 0 "i" KInt; OSetLength 0 0%Z; OSetLength 0 2%Z] w0) 0 with
   | Some t => ids t = [0; 1]%N /\ view t = [("i", KInt, [VInt 0; VInt 0])] | None => False end.
+Proof. vm_compute. split; reflexivity. Qed.
+
+(* a series column grows with the table: the appended rows hold NaN in every sample, the first rows stay *)
+Example C07_series_grow :
+  match nth_error (pool (srun [SPlain (ONew 1); SNew 0 "s" 2 0; SSet 0 "s" 2 (AInt 0) (SVSeries [PInt 1; PInt 2]);
+                               SPlain (OSetLength 0 2%Z)] w0)) 0 with
+  | Some t => map (fun '(n, _, c) => (n, c)) (view t) =
+              [("s#0", [VFlt (FFin false 1 0); VFlt FNan]); ("s#1", [VFlt (FFin false 1 1); VFlt FNan])]
+              /\ ids t = [0; 1]%N
+  | None => False
+  end.
 Proof. vm_compute. split; reflexivity. Qed.
